@@ -26,6 +26,10 @@ def run_stats_values(run, prop, cases, binp, codes, what):
         if not st["ok"]:
             nerr += 1
             continue
+        if st["stats"].get("corr_deprecated") is not None and st["stats"]["corr_deprecated"] != st["stats"]["corr"]:
+            run.violation("%s: the deprecated accessor correlation_matrix() differs from calculate_correlation_matrix()" % what,
+                          {"case": c, "stats": st["stats"]})
+            continue
         t = num.stats_term(c, st, r["steps"][3]["v"])
         if t is not None:
             terms.append(t)
